@@ -37,7 +37,8 @@ import sbeppcrun as sr
 import schema as sch
 import vlib
 
-RUN_TIMEOUT = 20          # hang detector: a normal run takes 10-30 ms
+RUN_TIMEOUT = 20          # hang detector: CPU seconds per run (a normal run takes 10-30 ms)
+WALL_GUARD = 150          # ... and wall seconds (a run that blocks without using the CPU)
 PAR = 10
 AS_LIMIT = 3 << 30        # address-space limit of the plain build (bytes)
 ASAN_OPTS = ("detect_leaks=0:allocator_may_return_null=1:max_allocation_size_mb=1024:soft_rss_limit_mb=2048:"
@@ -288,14 +289,18 @@ def run_files(binary, kind, files, argv_tokens, workdir, run_id, schema, asuser=
         shutil.rmtree(rd, ignore_errors=True)
         return r
     r.not_run = False
-    if kind != "san":
-        try:
-            resource.prlimit(p.pid, resource.RLIMIT_AS, (AS_LIMIT, AS_LIMIT))
-        except (OSError, ValueError):
-            pass
     try:
-        out, err = p.communicate(timeout=timeout)
+        # the hang detector counts CPU time, so that a loaded machine does not turn slow runs into hangs
+        resource.prlimit(p.pid, resource.RLIMIT_CPU, (timeout, timeout + 2))
+        if kind != "san":
+            resource.prlimit(p.pid, resource.RLIMIT_AS, (AS_LIMIT, AS_LIMIT))
+    except (OSError, ValueError):
+        pass
+    try:
+        out, err = p.communicate(timeout=WALL_GUARD)
         rc = p.returncode
+        if rc in (-24, -9):     # SIGXCPU at the soft CPU limit (SIGKILL at the hard one): out of time
+            rc = None
     except subprocess.TimeoutExpired:
         p.kill()
         out, err = p.communicate()
@@ -368,7 +373,7 @@ class Plan:
         return {"ev": "Plan", "schema": self.name, "ops": self.ops, "nin": self.nin}
 
 
-EMPTY = Plan("rejected", [], 0, {})
+EMPTY = Plan("no-plan", [], 0, {})
 
 
 def without_root(ops):
@@ -381,14 +386,13 @@ def without_root(ops):
     return out
 
 
-def attach_plan(r, plans, base_plan=None):
+def attach_plan(r, plans):
     """Transliteration rule (no expectation is computed here):
        exit 0        -> the plan is the sequence of output calls the run made itself (SbeppcTrace then demands that it is
                         a well-formed emission - directories first, every file opened once, written, closed - carried out
                         completely after the `named` marker, all input read before `parsed`, every file complete);
-       anything else -> `base_plan` if the case only obstructs the environment of a known-valid input (failed planned
-                        calls are then failures of the run, which must end in exit # 0 + diagnostic), else the EMPTY plan:
-                        a run that does not succeed may not make a single output call."""
+       anything else -> no plan (the empty one): SbeppcTraceC09 then allows output calls only after `named`, and status # 0
+                        after output calls / files left behind only if one of those calls failed."""
     if r.status == 0 and r.signal == 0:
         ops, nin = sr.plan_from_events(r.logged)
         if not any(op["call"] == "mkdir" and op["path"] == "." for op in ops):
@@ -399,11 +403,9 @@ def attach_plan(r, plans, base_plan=None):
         pl = plans[key]
         files = dict(r.tree)
     else:
-        pl = base_plan or EMPTY
-        if base_plan is not None and r.root_existed:
-            pl = Plan(base_plan.name + "-root-exists", without_root(base_plan.ops), base_plan.nin, base_plan.files)
+        pl = EMPTY
         plans.setdefault(pl.name, pl)
-        files = pl.files or {}
+        files = {}
     finish_events(r, pl.name)
     r.events.append(sr.disk_event(r.tree, files))
     return r
@@ -428,11 +430,32 @@ def distinct_traces(runs):
     return reps, {g[0].id: g for g in groups.values()}
 
 
+TV_JAVA = "-Xmx3g -Xss32m -XX:ParallelGCThreads=2 -DTLA-Library=" + vlib.SPEC
+
+
 def validate(batch):
-    """one TLC run of SbeppcTrace over a batch of runs; returns (rejections, TLCResult)"""
+    """One TLC run of SbeppcTraceC09 (= SbeppcTrace + the rules for runs without a plan) over a batch of runs;
+    same protocol as sbeppcrun.validate_runs.  Returns (rejections, TLCResult)."""
     tag, runs, plans, wd = batch
     refs = {n: plans[n] for n in {r.schema for r in runs}}
-    return sr.validate_runs(None, runs, refs, wd, tag="tv-" + tag)
+    d = vlib.ensure_dir(os.path.join(wd, "tv-" + tag))
+    tp = os.path.join(d, "trace.ndjson")
+    vlib.write_ndjson(tp, sr.trace_lines(runs, refs))
+    name = "TV_SbeppcTraceC09"
+    vlib.mc(d, name, "SbeppcTraceC09", sr.TRACE_BODY,
+            "SPECIFICATION SpecC09\nPOSTCONDITION TraceAccepted\nCHECK_DEADLOCK FALSE\n" + sr.TRACE_CONSTS)
+    r = vlib.tlc(name, cwd=d, workers=1, env={"TRACE": tp, "JAVA_TOOL_OPTIONS": TV_JAVA}, timeout=1200, xmx="3g")
+    acc = r.exit == 0 and "TraceAccepted" not in r.raw.split("Starting...")[-1]
+    rej = [x for x in r.records if "rejected" in x]
+    if acc and rej:
+        raise vlib.InfraError("SbeppcTraceC09 accepted the trace but printed rejections: %s" % rej[:2])
+    if not acc and not rej:
+        raise vlib.InfraError("SbeppcTraceC09 did not consume %s and named no run (exit %s):\n%s" % (tp, r.exit, r.raw[-2500:]))
+    ids = {x.id for x in runs}
+    for x in rej:
+        if x["rejected"] not in ids:
+            raise vlib.InfraError("rejection of unknown run %r (malformed trace?): %s" % (x["rejected"], json.dumps(x)[:500]))
+    return rej, r
 
 
 def make_batches(runs, plans, wd, prefix):
@@ -658,10 +681,7 @@ def run(v, tier, seed):
                     name, kind, r.status, r.signal, r.stdout[-500:], r.stderr[-1500:]))
             if not any(e.get("ev") == "phase" for e in r.logged):
                 raise vlib.InfraError("no phase markers from sbeppc: the SBEPP_VERIF hook is not in %s" % vlib.REPO)
-            if kind == "plain":
-                ops, nin = sr.plan_from_events(r.logged)
-                ref = Plan("base-" + name, ops, nin, dict(r.tree))
-        base_plan[name] = ref
+        base_plan[name] = True
 
     # ---- 3. every case through both builds (worker processes) ---------------------------
     t1 = time.time()
@@ -684,9 +704,7 @@ def run(v, tier, seed):
     vlib.log("C09: %d cases, %d runs in %.0f s" % (len(jobs), len(runs), t_exec))
 
     def plan_of(r):
-        j = r.job
-        obstructed = (not j.corpus) and "obstructed" in j.env and all(a["group"] == "argv" for a in j.case["actions"])
-        return attach_plan(r, plans, base_plan[j.base] if obstructed else None)
+        return attach_plan(r, plans)
     for r in runs:
         plan_of(r)
 
@@ -794,15 +812,15 @@ def run(v, tier, seed):
     v.assumptions += [
         "scope: base documents = %s; depth <= 2; pairs are a seeded sample (PairStride), positions %s" % (
             [n for n, _ in bs], "all of the compact base, one per position class of the others" if thorough else "one per position class"),
-        "hang detector: %d s wall per run (a normal run takes 10-30 ms); plain build under a %d MiB address-space limit, sanitized build "
+        "hang detector: %d s CPU time per run (RLIMIT_CPU; a normal run takes 10-30 ms) and 150 s wall; plain build under a %d MiB address-space limit, sanitized build "
         "under max_allocation_size_mb=1024 / soft_rss_limit_mb=2048 with allocator_may_return_null (allocation failure = std::bad_alloc, "
         "as under any memory limit)" % (RUN_TIMEOUT, AS_LIMIT >> 20),
         "LeakSanitizer is off (a leak is neither a crash nor undefined behaviour); ASan/UBSan reports are read from stderr",
         "permission fixtures (mode 000 file, mode 555 directory) are run as uid 65534 because root ignores file modes" if os.geteuid() == 0
         else "not running as root: permission fixtures are run as the current user",
         "a rejected run is reported only if a second execution of the same case is rejected in the same class",
-        "plan of a run = its own output calls if it exited 0, the base's plan for an obstructed output location, else the empty plan "
-        "(no output call at all allowed)",
+        "plan of a run = its own output calls if it exited 0; otherwise no plan: output calls only after the `named` marker, and "
+        "status # 0 after output calls / files left behind only if an output call failed (SbeppcTraceC09)",
         "the shim sees mkdir/open/write/close/rename/unlink below the output directory; TLC, tools/garblegen.py (edit application, "
         "serialization) and tools/sbeppcrun.py are trusted"]
     return v.finish("exploration",
